@@ -16,6 +16,8 @@ META = {
             "with every eighth modifier combination (must give [] / None)",
     "assumptions": ["paths of length >= 3 are run with the datum modifiers {none, length} only and on the F-deep + F-type documents only",
                     "DataPath.any() is documented in the code as unimplemented and is not judged",
+                    "C04 quantifies over every document: four documents with tuple-valued mapping keys are part of the family "
+                    "(a reported path holds such a key as one element)",
                     "documents on which the datum modifier is undefined for a selected node are executed "
                     "and counted but not judged (quantifier of C04)"],
     "bounds": {
